@@ -136,7 +136,21 @@ func VerifBarrier(db *DB) error {
 			frozen = true
 			fm.decref()
 		}
-		if !frozen && !db.tableNeedCompaction() {
+		if frozen || db.tableNeedCompaction() {
+			continue
+		}
+		// A compaction whose version has just been installed may still be on its
+		// way out (it releases its input version when it returns). The compaction
+		// goroutine takes commands only between compactions, so a second round
+		// trip means that it has fully returned.
+		if err := db.compTriggerRange(db.tcompCmdC, 1<<30, nil, nil); err != nil {
+			return err
+		}
+		if fm := db.getFrozenMem(); fm != nil {
+			fm.decref()
+			continue
+		}
+		if !db.tableNeedCompaction() {
 			VerifFileRefs(db)
 			return nil
 		}
